@@ -3,7 +3,7 @@
   Theorems over the transition system of `Varlink/Lifecycle.lean` (any number of API calls, connections,
   handler threads, under every interleaving). Helper lemmas: `VarlinkProofs/Lemmas/Lifecycle*.lean`.
 -/
-import VarlinkProofs.Lemmas.LifecycleMono
+import VarlinkProofs.Lemmas.LifecycleTimeout
 import Varlink.Expected
 import Varlink.Extracted.Skeleton
 namespace Varlink.C14
@@ -40,16 +40,6 @@ theorem accounted_phases :
     (∀ p, inCounter p = true ↔ p = .counted ∨ p = .reading ∨ p = .dispatching ∨ p = .closing ∨ p = .closed) ∧
     (∀ p, inWg p = true ↔ p = .reading ∨ p = .dispatching ∨ p = .closing ∨ p = .closed ∨ p = .decremented) := by
   constructor <;> intro p <;> cases p <;> simp [inCounter, inWg]
-
-theorem setConn_get {w : World} {i : Nat} {x y : Conn} (hi : w.conns[i]? = some x) :
-    (w.setConn i y).conns[i]? = some y := getElem?_set_eq' hi
-
-theorem run_one {w w1 : World} {a : Label} (h1 : step w a = some w1) : run w [a] = some w1 := by
-  simp only [run, h1]
-theorem run_two {w w1 w2 : World} {a b : Label} (h1 : step w a = some w1) (h2 : step w1 b = some w2) :
-    run w [a, b] = some w2 := by simp only [run, h1, h2]
-theorem run_three {w w1 w2 w3 : World} {a b c : Label} (h1 : step w a = some w1) (h2 : step w1 b = some w2)
-    (h3 : step w2 c = some w3) : run w [a, b, c] = some w3 := by simp only [run, h1, h2, h3]
 
 /-- the four endings of a handler — orderly close, abort mid-frame (both: end of input while reading),
     handler error, context cancellation — are all enabled in the states where they can happen and all lead
@@ -229,5 +219,187 @@ theorem no_service_after_shutdown {w w2 : World} (hr : Reachable w) {l : Nat} (h
     | none =>
       obtain ⟨_, hph⟩ := conn_new hrel hold hx
       rw [hph, hxl, isOpen_false_of_closed hcla]; rfl
+
+/-! ### Shutdown makes the serving call return -/
+
+/-- **shutdown_returns** (bounded progress, any interleaving): a serving call `k` is in its accept loop (orderly
+    use, so it serves the listener stored in the service). After `Shutdown` that listener is closed, and along EVERY
+    continuation — any interleaving of clients, faults, other threads, further API calls — the call's own step is
+    never blocked until it has run its teardown, and after `dist pc ≤ 7` of its own steps it waits for its
+    handlers (or has returned): it never accepts another connection and cannot get stuck in Accept. -/
+theorem shutdown_returns {w : World} (h : OReach w) {k : Nat} {c : Call} (hk : w.calls[k]? = some c)
+    (hp : loopPc c.pc = true) :
+    ∃ l, c.l = some l ∧ Closed (stepShutdown w) l ∧ dist c.pc ≤ 7 ∧
+      ∀ (ls : List Label) (w' : World), run (stepShutdown w) ls = some w' →
+        ∃ c', w'.calls[k]? = some c' ∧
+          ((loopish c'.pc = true ∧ dist c'.pc + ls.count (.call k) ≤ dist c.pc ∧ (∃ w'', step w' (.call k) = some w''))
+            ∨ c'.pc = .waiting ∨ c'.pc = .returned) := by
+  obtain ⟨_, hv, ho⟩ := oreach_invs h
+  obtain ⟨e1, e2⟩ := (ho.own k c hk).loopL hp
+  obtain ⟨l, hl⟩ := Option.isSome_iff_exists.mp e2
+  have hlst : w.lst = some l := by rw [← e1]; exact hl
+  have hcl : Closed (stepShutdown w) l := by
+    have hlt := hv.lst l hlst
+    refine closed_of_isOpen_false (by simpa using hlt) ?_
+    simp only [stepShutdown, hlst, isOpen, closeL]
+    rw [List.getElem?_modify]
+    simp [hlt]
+  have hloopish : loopish c.pc = true := by cases hpc : c.pc <;> simp [hpc, loopPc] at hp <;> simp [loopish]
+  refine ⟨l, hl, hcl, by cases c.pc <;> simp [dist], ?_⟩
+  intro ls w' hrun
+  have hk1 : (stepShutdown w).calls[k]? = some c := by rw [stepShutdown_calls]; exact hk
+  obtain ⟨c', hk', hl', _, hres⟩ := closed_listener_progress ls hk1 hl hcl hloopish hrun
+  refine ⟨c', hk', ?_⟩
+  rcases hres with ⟨hp', hle⟩ | hdone
+  · left
+    refine ⟨hp', hle, ?_⟩
+    have hcl' : Closed w' l := closed_reach (reach_of_run ls hrun) hcl
+    obtain ⟨w'', _, hs, _⟩ := own_step_closed hk' (hl' ▸ hl) hcl' hp'
+    exact ⟨w'', hs⟩
+  · exact Or.inr hdone
+
+/-- … **with nil whenever Shutdown found the service waiting for a connection**: if the call was in Accept at the
+    Shutdown, then along every orderly continuation its return value is unset until it leaves the loop and is
+    `nil` from then on, for ever. -/
+theorem shutdown_in_accept_returns_nil {w w2 : World} (h : OReach w) {k : Nat} {c : Call}
+    (hk : w.calls[k]? = some c) (hpc : c.pc = .inAccept) (h2 : Reach Orderly (stepShutdown w) w2) :
+    ∃ c2, w2.calls[k]? = some c2 ∧
+      (((c2.pc = .inAccept ∨ c2.pc = .errOther) ∧ c2.ret = none) ∨
+       ((c2.pc = .teardown ∨ c2.pc = .waiting ∨ c2.pc = .returned) ∧ c2.ret = some .nil)) := by
+  obtain ⟨l, ⟨c2, hk2, _, hout⟩, _⟩ := nil_after_shutdown_in_accept h hk hpc h2
+  refine ⟨c2, hk2, ?_⟩
+  rcases hout with ⟨hp, hr, _⟩ | hd
+  · exact Or.inl ⟨hp, hr⟩
+  · exact Or.inr hd
+
+/-- … **as soon as the connections already accepted have ended**: a call that waits for its handlers can take its
+    last step exactly when every connection it accepted is finished, and that step is the return. -/
+theorem wait_returns_when_drained {w : World} (h : Reachable w) {k : Nat} {c : Call} (hk : w.calls[k]? = some c)
+    (hpc : c.pc = .waiting) :
+    (step w (.call k) ≠ none ↔
+      ∀ (i : Nat) (x : Conn), w.conns[i]? = some x → x.owner = k → inWg x.phase = false) ∧
+    (∀ w', step w (.call k) = some w' → (w'.calls[k]?).map (·.pc) = some .returned) := by
+  have hinv := inv_reachable h
+  have hwg := hinv.wgOk k c hk
+  constructor
+  · constructor
+    · intro hne i x hi hox
+      have h0 : c.wg = 0 := by
+        simp only [step, stepCall, hk, hpc] at hne
+        split at hne
+        · assumption
+        · exact absurd rfl hne
+      have : cnt (ownedWg k) w.conns = 0 := by rw [← hwg, h0]; rfl
+      have := cnt_zero_forall _ this hi
+      simpa [ownedWg, hox] using this
+    · intro hall
+      have : cnt (ownedWg k) w.conns = 0 := by
+        apply cnt_eq_zero_of_forall
+        intro i x hi
+        by_cases hox : x.owner = k
+        · simp [ownedWg, hall i x hi hox]
+        · simp [ownedWg, hox]
+      have h0 : c.wg = 0 := by rw [this] at hwg; exact_mod_cast hwg
+      simp [step, stepCall, hk, hpc, h0]
+  · intro w' hs
+    simp only [step, stepCall, hk, hpc] at hs
+    split at hs
+    · simp only [Option.some.injEq] at hs; subst hs
+      rw [setCall_get hk]; rfl
+    · cases hs
+
+/-- own steps a handler still needs once its client has gone (worst case: it first answers what was already sent) -/
+def handlerDist (x : Conn) : Nat :=
+  match x.phase with
+  | .reading => 2 * x.reqs + 4
+  | .dispatching => 2 * x.reqs + 5
+  | .closing => 3
+  | .closed => 2
+  | .decremented => 1
+  | _ => 0
+
+/-- … and the handlers do end: once the client side of an accepted connection is closed or aborted, the handler's
+    own step is always enabled and strictly decreases `handlerDist` (≤ 2·pending requests + 5), until `done`. -/
+theorem handler_progress {w : World} (h : Reachable w) {i : Nat} {x : Conn} (hi : w.conns[i]? = some x)
+    (hc : x.cli ≠ .open) (hp : inWg x.phase = true) :
+    ∃ w' x', step w (.handler i) = some w' ∧ w'.conns[i]? = some x' ∧ x'.cli = x.cli ∧
+      handlerDist x' < handlerDist x ∧ (inWg x'.phase = true ∨ x'.phase = .done) := by
+  have hinv := inv_reachable h
+  cases hph : x.phase <;> simp only [hph, inWg] at hp <;> try (exact Bool.noConfusion hp)
+  case reading =>
+    by_cases hr : x.reqs = 0
+    · refine ⟨w.setConn i { x with phase := .closing }, { x with phase := .closing }, ?_, setConn_get hi, rfl, ?_, Or.inl rfl⟩
+      · simp [step, stepHandler, hi, hph, hr, hc]
+      · simp [handlerDist, hph]
+    · refine ⟨w.setConn i { x with phase := .dispatching, reqs := x.reqs - 1 },
+        { x with phase := .dispatching, reqs := x.reqs - 1 }, ?_, setConn_get hi, rfl, ?_, Or.inl rfl⟩
+      · simp [step, stepHandler, hi, hph, hr]
+      · simp only [handlerDist, hph]; omega
+  case dispatching =>
+    refine ⟨w.setConn i { x with phase := .reading, served := x.served + 1 },
+      { x with phase := .reading, served := x.served + 1 }, ?_, setConn_get hi, rfl, ?_, Or.inl rfl⟩
+    · simp [step, stepHandler, hi, hph]
+    · simp [handlerDist, hph]
+  case closing =>
+    refine ⟨w.setConn i { x with phase := .closed }, { x with phase := .closed }, ?_, setConn_get hi, rfl, ?_, Or.inl rfl⟩
+    · simp [step, stepHandler, hi, hph]
+    · simp [handlerDist, hph]
+  case closed =>
+    refine ⟨({ w with counter := w.counter - 1 } : World).setConn i { x with phase := .decremented },
+      { x with phase := .decremented }, ?_, setConn_get (w := { w with counter := w.counter - 1 }) hi, rfl, ?_, Or.inl rfl⟩
+    · simp only [step, stepHandler, hi, hph]
+    · simp [handlerDist, hph]
+  case decremented =>
+    obtain ⟨co, hco, hne⟩ := hinv.owner_wg_pos hi (by simp [hph, inWg])
+    refine ⟨(w.setCall x.owner { co with wg := co.wg - 1 }).setConn i { x with phase := .done },
+      { x with phase := .done }, ?_, setConn_get (w := w.setCall x.owner { co with wg := co.wg - 1 }) hi, rfl, ?_, Or.inr rfl⟩
+    · simp only [step, stepHandler, hi, hph, hco, hne, if_false]
+    · simp [handlerDist, hph]
+
+/-! ### the service is reusable -/
+
+/-- **reusable**: (orderly use) the step by which a serving call returns leaves the shared state of the service
+    exactly as it was initially — not running, no listener, no address, `conncounter = 0`, no wait-group panic —
+    and no API call in flight, so any further history (bind, serve, …) is possible again on the same object. -/
+theorem reusable {w w' : World} (h : OReach w) {k : Nat} {c : Call} (hk : w.calls[k]? = some c)
+    (hpc : c.pc = .waiting) (hs : step w (.call k) = some w') :
+    w'.running = init.running ∧ w'.lst = init.lst ∧ w'.addrF = init.addrF ∧ w'.counter = init.counter ∧
+    w'.wgPanic = init.wgPanic ∧ Idle w' :=
+  reusable_core h hk hpc hs
+
+/-- non-vacuity: a full cycle with a connection open at Shutdown, under the orderly discipline, ends in `waiting`
+    with the step enabled; and a second bind + serve on the same object gets to Accept again -/
+example : ∃ w, OReach w ∧ (w.calls[1]?).map (fun c => (c.pc, c.wg, c.ret)) = some (.waiting, 0, some .nil) ∧
+    w.counter = 0 ∧ (step w (.call 1)).isSome = true :=
+  ⟨_, reach_of_runB [.spawn .bind false (some 0), .call 0, .call 0, .call 0, .call 0,
+      .spawn .doListen false none, .call 1, .call 1, .call 1, .clientConnect 0, .call 1, .call 1, .call 1, .call 1,
+      .shutdown, .call 1, .call 1, .call 1, .clientClose 0, .handler 0, .handler 0, .handler 0, .handler 0] rfl,
+    by decide, by decide, by decide⟩
+
+example : ∃ w, OReach w ∧ w.calls.map (fun c => (c.pc, c.ret)) =
+      [(.returned, some .nil), (.returned, some .nil), (.returned, some .nil), (.inAccept, none)] ∧
+    w.running = true ∧ w.lst = some 1 :=
+  ⟨_, reach_of_runB [.spawn .bind false (some 0), .call 0, .call 0, .call 0, .call 0,
+      .spawn .doListen false none, .call 1, .call 1, .call 1, .shutdown, .call 1, .call 1, .call 1, .call 1,
+      .spawn .bind false (some 0), .call 2, .call 2, .call 2, .call 2,
+      .spawn .doListen false none, .call 3, .call 3, .call 3] rfl,
+    by decide, by decide, by decide⟩
+
+/-! ### why the orderly discipline is a hypothesis
+
+  Overlapping API calls are outside the property's promise ("afterwards the same service object can be bound and
+  served again"), but the general model shows what the code does with them; the running check of `Bind` and the
+  later `running = true` of the serving call are two critical sections. -/
+
+/-- a `Bind` that slips between DoListen's read of the listener and its `running = true` is NOT refused: DoListen
+    then serves the old listener while the field holds the new one; Shutdown closes only the new one, and the
+    serving call stays blocked in Accept on a listener nobody can close any more. -/
+example : (run init [.spawn .bind false (some 0), .call 0, .call 0, .call 0, .call 0,   -- Bind: listener 0
+                     .spawn .doListen false none, .call 1,                               -- DoListen reads l = 0
+                     .spawn .bind false (some 1), .call 2, .call 2, .call 2, .call 2,    -- Bind: field = listener 1
+                     .call 1, .call 1,                                                   -- running = true; loop; Accept
+                     .shutdown]).map (fun w => (obs w, isOpen w 1, (step w (.call 1)).isSome)) =
+    some (⟨false, some 1, true, [(.returned, some .nil), (.inAccept, none), (.returned, some .nil)], []⟩, false, false) := by
+  decide
 
 end Varlink.C14
